@@ -543,19 +543,84 @@ func init() {
 		}
 		return acc
 	})
+	// byte-sequence strings (bstr) in the strings package: matching is decided byte by byte (every
+	// comparison with a symbolic byte is a solver-decided branch), the results keep their shape concrete
+	u8t := types.Typ[types.Uint8]
+	anyBstr := func(vs ...value) bool {
+		for _, v := range vs {
+			if isBstr(v) {
+				return true
+			}
+		}
+		return false
+	}
+	bytesOf := func(v value, what string) []value {
+		bs, ok := strBytes(v)
+		if !ok {
+			panic(unsupported(what + ": byte-sequence string mixed with an unbounded symbolic string"))
+		}
+		return bs
+	}
+	matchAt := func(fr *frame, hay, needle []value, i int) bool {
+		if i < 0 || i+len(needle) > len(hay) {
+			return false
+		}
+		var acc value = true
+		for k := range needle {
+			acc = andV(acc, eqv(u8t, hay[i+k], needle[k]))
+		}
+		return fr.ex().truth(acc)
+	}
+	bIndex := func(fr *frame, hay, needle []value, from int) int {
+		for i := from; i+len(needle) <= len(hay); i++ {
+			if matchAt(fr, hay, needle, i) {
+				return i
+			}
+		}
+		return -1
+	}
+	bReplace := func(fr *frame, hay, old, nw []value, n int) value {
+		if len(old) == 0 {
+			panic(unsupported("strings.Replace with an empty pattern on a byte-sequence string"))
+		}
+		var out []value
+		i := 0
+		for n != 0 {
+			j := bIndex(fr, hay, old, i)
+			if j < 0 {
+				break
+			}
+			out = append(out, hay[i:j]...)
+			out = append(out, nw...)
+			i = j + len(old)
+			n--
+		}
+		out = append(out, hay[i:]...)
+		return mkBstr(out)
+	}
 	reg("strings.HasPrefix", func(fr *frame, a []value) value {
+		if anyBstr(a[0], a[1]) {
+			return matchAt(fr, bytesOf(a[0], "HasPrefix"), bytesOf(a[1], "HasPrefix"), 0)
+		}
 		if isSym(a[0]) || isSym(a[1]) {
 			return &sym{k: sBool, e: "(str.prefixof " + litOf(a[1]).e + " " + litOf(a[0]).e + ")"}
 		}
 		return strings.HasPrefix(a[0].(string), a[1].(string))
 	})
 	reg("strings.HasSuffix", func(fr *frame, a []value) value {
+		if anyBstr(a[0], a[1]) {
+			h, nd := bytesOf(a[0], "HasSuffix"), bytesOf(a[1], "HasSuffix")
+			return matchAt(fr, h, nd, len(h)-len(nd))
+		}
 		if isSym(a[0]) || isSym(a[1]) {
 			return &sym{k: sBool, e: "(str.suffixof " + litOf(a[1]).e + " " + litOf(a[0]).e + ")"}
 		}
 		return strings.HasSuffix(a[0].(string), a[1].(string))
 	})
 	reg("strings.Contains", func(fr *frame, a []value) value {
+		if anyBstr(a[0], a[1]) {
+			return bIndex(fr, bytesOf(a[0], "Contains"), bytesOf(a[1], "Contains"), 0) >= 0
+		}
 		if isSym(a[0]) || isSym(a[1]) {
 			return &sym{k: sBool, e: "(str.contains " + litOf(a[0]).e + " " + litOf(a[1]).e + ")"}
 		}
@@ -605,8 +670,58 @@ func init() {
 	reg("strings.ToLower", func(fr *frame, a []value) value { return strings.ToLower(asString(fr, a[0])) })
 	reg("strings.ToUpper", func(fr *frame, a []value) value { return strings.ToUpper(asString(fr, a[0])) })
 	reg("strings.TrimSpace", func(fr *frame, a []value) value { return strings.TrimSpace(asString(fr, a[0])) })
-	reg("strings.Index", func(fr *frame, a []value) value { return strings.Index(asString(fr, a[0]), asString(fr, a[1])) })
+	reg("strings.Index", func(fr *frame, a []value) value {
+		if anyBstr(a[0], a[1]) {
+			return bIndex(fr, bytesOf(a[0], "Index"), bytesOf(a[1], "Index"), 0)
+		}
+		return strings.Index(asString(fr, a[0]), asString(fr, a[1]))
+	})
+	reg("strings.ContainsRune", func(fr *frame, a []value) value {
+		r, ok := a[1].(int32)
+		if !ok || r >= 0x80 {
+			panic(unsupported("strings.ContainsRune with a symbolic or non-ASCII rune"))
+		}
+		if anyBstr(a[0]) {
+			return bIndex(fr, bytesOf(a[0], "ContainsRune"), []value{byte(r)}, 0) >= 0
+		}
+		return strings.ContainsRune(asString(fr, a[0]), r)
+	})
+	reg("strings.Count", func(fr *frame, a []value) value {
+		if anyBstr(a[0], a[1]) {
+			h, nd := bytesOf(a[0], "Count"), bytesOf(a[1], "Count")
+			if len(nd) == 0 {
+				panic(unsupported("strings.Count with an empty pattern on a byte-sequence string"))
+			}
+			n, i := 0, 0
+			for {
+				j := bIndex(fr, h, nd, i)
+				if j < 0 {
+					return n
+				}
+				n++
+				i = j + len(nd)
+			}
+		}
+		return strings.Count(asString(fr, a[0]), asString(fr, a[1]))
+	})
 	reg("strings.Split", func(fr *frame, a []value) value {
+		if anyBstr(a[0], a[1]) {
+			h, nd := bytesOf(a[0], "Split"), bytesOf(a[1], "Split")
+			if len(nd) == 0 {
+				panic(unsupported("strings.Split with an empty separator on a byte-sequence string"))
+			}
+			var parts []value
+			i := 0
+			for {
+				j := bIndex(fr, h, nd, i)
+				if j < 0 {
+					break
+				}
+				parts = append(parts, mkBstr(h[i:j]))
+				i = j + len(nd)
+			}
+			return append(parts, mkBstr(h[i:]))
+		}
 		var out []value
 		for _, s := range strings.Split(asString(fr, a[0]), asString(fr, a[1])) {
 			out = append(out, s)
@@ -615,13 +730,37 @@ func init() {
 	})
 	reg("strings.Repeat", func(fr *frame, a []value) value { return strings.Repeat(asString(fr, a[0]), int(asInt64(a[1]))) })
 	reg("strings.ReplaceAll", func(fr *frame, a []value) value {
+		if anyBstr(a[0], a[1], a[2]) {
+			return bReplace(fr, bytesOf(a[0], "ReplaceAll"), bytesOf(a[1], "ReplaceAll"), bytesOf(a[2], "ReplaceAll"), -1)
+		}
 		return strings.ReplaceAll(asString(fr, a[0]), asString(fr, a[1]), asString(fr, a[2]))
 	})
 	reg("strings.Replace", func(fr *frame, a []value) value {
+		if anyBstr(a[0], a[1], a[2]) {
+			return bReplace(fr, bytesOf(a[0], "Replace"), bytesOf(a[1], "Replace"), bytesOf(a[2], "Replace"), int(asInt64(a[3])))
+		}
 		return strings.Replace(asString(fr, a[0]), asString(fr, a[1]), asString(fr, a[2]), int(asInt64(a[3])))
 	})
-	reg("strings.TrimPrefix", func(fr *frame, a []value) value { return strings.TrimPrefix(asString(fr, a[0]), asString(fr, a[1])) })
-	reg("strings.TrimSuffix", func(fr *frame, a []value) value { return strings.TrimSuffix(asString(fr, a[0]), asString(fr, a[1])) })
+	reg("strings.TrimPrefix", func(fr *frame, a []value) value {
+		if anyBstr(a[0], a[1]) {
+			h, nd := bytesOf(a[0], "TrimPrefix"), bytesOf(a[1], "TrimPrefix")
+			if matchAt(fr, h, nd, 0) {
+				return mkBstr(h[len(nd):])
+			}
+			return a[0]
+		}
+		return strings.TrimPrefix(asString(fr, a[0]), asString(fr, a[1]))
+	})
+	reg("strings.TrimSuffix", func(fr *frame, a []value) value {
+		if anyBstr(a[0], a[1]) {
+			h, nd := bytesOf(a[0], "TrimSuffix"), bytesOf(a[1], "TrimSuffix")
+			if matchAt(fr, h, nd, len(h)-len(nd)) {
+				return mkBstr(h[:len(h)-len(nd)])
+			}
+			return a[0]
+		}
+		return strings.TrimSuffix(asString(fr, a[0]), asString(fr, a[1]))
+	})
 	reg("strings.Fields", func(fr *frame, a []value) value {
 		var out []value
 		for _, s := range strings.Fields(asString(fr, a[0])) {
